@@ -132,9 +132,19 @@ func (g *qGen) newVar(typ string, val interface{}) string {
 	g.varDefs[name] = typ
 	switch {
 	case !strings.HasSuffix(typ, "!") && g.pct(10): // sometimes leave a nullable variable unset
+		if typ == "String" && g.pct(50) {
+			// ... with a default: every server that sees the variable left out computes with the default
+			g.varDefault[name] = "\"dflt\""
+			g.feats["unset-variable-with-default"]++
+		}
 	case !strings.HasSuffix(typ, "!") && g.k.NullVars && g.pct(15): // or bind it to an explicit null
 		g.vars[name] = nil
 		g.feats["null-variable"]++
+		if typ == "String" && g.pct(50) {
+			// ... which overrides the default the variable declares
+			g.varDefault[name] = "\"dflt\""
+			g.feats["null-variable-with-default"]++
+		}
 	default:
 		g.vars[name] = val
 		if g.pct(30) {
